@@ -515,7 +515,11 @@ def handle (a : Args) : String :=
         | "max" => maxInt dt n px
         | _ => minInt dt n px
       let spec := foldSpec dt.isBool op n px
-      s!"model={showInts model.toList} spec={showInts spec} cnt={showNats cnt} len={len}"
+      -- the slots where oracle and model are comparable: the hypotheses of `C13_labeled_sum_oracle_eq_model`
+      -- (`dt.InRange` of the exact sum) and `C13_labeled_max_min_oracle_eq_model` (a non-empty label), evaluated here
+      let ok := if op == "sum" then spec.map fun (v : Int) => decide (dt.lo ≤ v ∧ v ≤ dt.hi)
+        else cnt.map fun c => decide (0 < c)
+      s!"model={showInts model.toList} spec={showInts spec} cnt={showNats cnt} len={len} ok={showBools ok}"
   | "hist" =>
     let h := fullHistogram (a.str "dt" == "b1") data
     s!"model={showNats h} spec={showNats (countSpec data h.length)}"
